@@ -1,0 +1,26 @@
+//go:build !verif
+
+package vuego
+
+// Monitoring hook points are compiled out unless the "verif" build tag is set.
+const (
+	vpCacheHit = iota
+	vpCacheMiss
+	vpCacheStore
+	vpFMMerge
+	vpVOnceAssign
+	vpPathMiss
+	vpPathStore
+	vpExprMiss
+	vpExprStore
+	vpPoolGet
+	vpPoolPut
+	vpBufGet
+	vpEvalEnter
+	vpIncludeEnter
+	vpSerializeNode
+	vpLayoutIter
+	vpSlotEnter
+)
+
+func verifPoint(point, a, b int) {}
